@@ -10,11 +10,12 @@ every interleaving, any number of threads / sessions / items):
   * the lock facts regenerated from /repo's source satisfy both disciplines (`decide`).
   * teardown protocol of internal/backend (as repaired by 630a898): Close / RemoveUser return, under
     the one named assumption that session loops observe Done; the former hang (cancelled Serve context)
-    is kept as a regression run that now completes; what is still left behind when removeState's DB
-    write fails (witness; defect of the current code).
+    and the unclosed state after a failing DB write (repaired by 0873710) are kept as regression runs
+    that now complete / are clean.
   * which close the code uses is a regenerated fact: State.Close discards (7b5e762), so its queue's
-    consumer always terminates (`state_close_consumer_exits`); Server.Close still uses plain Close on
-    serveErrCh, for which `queue_close_leak_witness` applies.
+    consumer always terminates (`state_close_consumer_exits`); so does Server.Close on serveErrCh
+    (214c4ac, `server_errch_close_classified`). `queue_close_leak_witness` stays as the statement about
+    plain Close, which no teardown path uses any more.
 What is NOT decided by theorem (search only, see checklib/props/C19.py): data races on fields that
 no lock guards (a State's snapshot read from a foreign goroutine, finding #13b), liveness that
 depends on the Go scheduler, blocking on channels / WaitGroups while holding a lock other than in
@@ -119,23 +120,17 @@ theorem queue_close_leak_witness :
   refine ⟨fun steps h => queue_close_blocks_without_reader leakState steps (by decide) (by decide)
     (by decide) (by decide) h, by decide⟩
 
-/-- What `State.Close` relies on, at full strength. Regenerated fact: `State.Close` (through
-`closeUpdateQueue`) calls exactly `updatesQueue.CloseAndDiscardQueued()`. Theorem: in every
-interleaving in which a `CloseAndDiscardQueued` call has completed — its three actions `close(stopCh)`,
-`closed.store(true)`, Broadcast occur in this order, with anything whatsoever before, between and
-after them (more Enqueue, other Close calls, consumer and reader steps or none) — the consumer
-goroutine of the queue terminates by at most two steps of its own: no reader, no bound on what is
-pending. So closing a state never leaves its update-queue goroutine behind (finding #13a, repaired
-by 7b5e762). -/
-theorem state_close_consumer_exits :
-    Facts.stateCloseDiscards = some true ∧
-    ∀ {α : Type} (cap : Nat) (before mid1 mid2 after : List (QStep α)),
-      let s := (QState.init cap : QState α).run
-        (before ++ [.stop] ++ mid1 ++ [.closeStore] ++ mid2 ++ [.closeBcast] ++ after)
-      ∃ own : List (QStep α), own.length ≤ 2 ∧ (∀ st ∈ own, st.isConsumer = true) ∧
-        (s.run own).consumer = .exited := by
-  refine ⟨by decide, ?_⟩
-  intro α cap before mid1 mid2 after s
+/-- In every interleaving in which a `CloseAndDiscardQueued` call has completed — its three actions
+`close(stopCh)`, `closed.store(true)`, Broadcast occur in this order, with anything whatsoever
+before, between and after them (more Enqueue, other Close calls, consumer and reader steps or none)
+— the consumer goroutine of the queue terminates by at most two steps of its own: no reader needed,
+no bound on what is pending. -/
+theorem queue_discard_consumer_exits {α : Type} (cap : Nat) (before mid1 mid2 after : List (QStep α)) :
+    let s := (QState.init cap : QState α).run
+      (before ++ [.stop] ++ mid1 ++ [.closeStore] ++ mid2 ++ [.closeBcast] ++ after)
+    ∃ own : List (QStep α), own.length ≤ 2 ∧ (∀ st ∈ own, st.isConsumer = true) ∧
+      (s.run own).consumer = .exited := by
+  intro s
   -- state right before the Broadcast of this call
   let s1 := (QState.init cap : QState α).run (before ++ [.stop] ++ mid1 ++ [.closeStore] ++ mid2)
   have hs : s = ((s1.step .closeBcast).run after) := by
@@ -158,13 +153,31 @@ theorem state_close_consumer_exits :
   exact cdq_exit' _ (run_stopped _ _ (step_stopped _ _ hst1)) (run_closed _ _ (step_closed _ _ hcl1))
     (awake_run _ _ (step_closed _ _ hcl1) hawake)
 
-/-- Regenerated fact about the other user of the queue: which close `Server.Close` calls on
-`serveErrCh` is classified (exactly one call, `Close` or `CloseAndDiscardQueued`). Today it is plain
-`Close` (`Facts.serverErrChDiscards = some false`): `queue_close_blocks_without_reader` then applies
-to the `server-err-ch` queue (buffer 1) — two or more session errors that nobody reads from
-`GetErrorCh` pin its consumer goroutine beyond `Server.Close` (label `c19teardown #13a-errch`). With
-`CloseAndDiscardQueued` (`some true`) the theorem of `state_close_consumer_exits` applies instead. -/
-theorem server_errch_close_classified : Facts.serverErrChDiscards.isSome = true := by decide
+/-- What `State.Close` relies on, at full strength. Regenerated fact: `State.Close` (through
+`closeUpdateQueue`) calls exactly `updatesQueue.CloseAndDiscardQueued()`; with
+`queue_discard_consumer_exits`: closing a state never leaves its update-queue goroutine behind, however
+many updates are unread (finding #13a, repaired by 7b5e762; reverting it breaks this theorem). -/
+theorem state_close_consumer_exits :
+    Facts.stateCloseDiscards = some true ∧
+    ∀ {α : Type} (cap : Nat) (before mid1 mid2 after : List (QStep α)),
+      let s := (QState.init cap : QState α).run
+        (before ++ [.stop] ++ mid1 ++ [.closeStore] ++ mid2 ++ [.closeBcast] ++ after)
+      ∃ own : List (QStep α), own.length ≤ 2 ∧ (∀ st ∈ own, st.isConsumer = true) ∧
+        (s.run own).consumer = .exited :=
+  ⟨by decide, fun cap before mid1 mid2 after => queue_discard_consumer_exits cap before mid1 mid2 after⟩
+
+/-- The same for the server's error channel, at full strength. Regenerated fact: `Server.Close` calls
+exactly `serveErrCh.CloseAndDiscardQueued()`; hence the `server-err-ch` consumer goroutine terminates
+after `Server.Close` even if session errors are queued and nobody reads `GetErrorCh` (finding
+#13a-errch, repaired by 214c4ac; reverting it breaks this theorem). -/
+theorem server_errch_close_classified :
+    Facts.serverErrChDiscards = some true ∧
+    ∀ {α : Type} (cap : Nat) (before mid1 mid2 after : List (QStep α)),
+      let s := (QState.init cap : QState α).run
+        (before ++ [.stop] ++ mid1 ++ [.closeStore] ++ mid2 ++ [.closeBcast] ++ after)
+      ∃ own : List (QStep α), own.length ≤ 2 ∧ (∀ st ∈ own, st.isConsumer = true) ∧
+        (s.run own).consumer = .exited :=
+  ⟨by decide, fun cap before mid1 mid2 after => queue_discard_consumer_exits cap before mid1 mid2 after⟩
 
 /-! ## locks -/
 
@@ -251,29 +264,24 @@ theorem facts_lockorder_no_deadlock (g : Guard) (s : LSys)
 /-! ## teardown protocol -/
 
 /-- Every run of the protocol keeps the WaitGroup accounting (`statesWG` = number of sessions that
-still owe a `Done`: after 630a898 no path of `removeState` past the map lookup skips it), never
-touches the database or the store after `user.close` closed them, and leaves a state unclosed only
-if the DB write of `removeState` failed (named `hWriteOk`) — for any number of sessions, any
-interleaving of logins, logouts, disconnects, failures and `RemoveUser`/`Close`. -/
+still owe a `Done`; every state ever created is either still counted or has notified), never touches
+the database or the store after `user.close` closed them, and whoever notified the WaitGroup has
+closed its state (after 0873710 on every path, also when the DB write of `removeState` fails). Hence
+when `RemoveUser`/`Close` has returned successfully every state that was ever created has been closed
+— with `state_close_consumer_exits`: no update-queue goroutine is left. For any number of sessions,
+any interleaving of logins, logouts, disconnects, failures and `RemoveUser`/`Close`; no assumption. -/
 theorem teardown_safe (n : Nat) (observes readFails writeFails connCloseFails : Bool) (steps : List TStep) :
     let s := (TState.init n observes readFails writeFails connCloseFails).run steps
     s.useAfterClose = false ∧ s.wg = s.sess.countP TState.owes ∧
-    (writeFails = false → s.unclosedStates = 0) := by
+    s.wg + s.dones = s.logins ∧ s.statesClosed = s.dones ∧
+    (s.closer = .returned true → s.statesClosed = s.logins) := by
   intro s
   have h := tinv_run _ steps (tinv_init n observes readFails writeFails connCloseFails)
-  refine ⟨h.noUse, h.wgEq, fun hw => h.unclosedOk ?_⟩
-  have cfg : ∀ (st : List TStep) (s0 : TState), (s0.run st).writeFails = s0.writeFails := by
-    intro st
-    induction st with
-    | nil => intro s0; rfl
-    | cons x xs ih =>
-      intro s0
-      have hx : (s0.step x).writeFails = s0.writeFails := by
-        unfold TState.step; split
-        · exact (cfg_apply s0 x).2.2.1
-        · rfl
-      simpa [TState.run] using (ih (s0.step x)).trans hx
-  rw [cfg]; exact hw
+  refine ⟨h.noUse, h.wgEq, h.cntOk, h.closedOk, fun hr => ?_⟩
+  have hz : s.wg = 0 := h.wgZero (by rw [hr]; rfl)
+  have h1 : s.wg + s.dones = s.logins := h.cntOk
+  have h2 : s.statesClosed = s.dones := h.closedOk
+  omega
 
 /-- `RemoveUser` / `Backend.Close` (hence `Server.Close`) return: from every reachable state in which
 the closer holds `usersLock`, every maximal run reaches `returned` after finitely many steps and is
@@ -314,14 +322,12 @@ theorem teardown_ctxcancel_now_completes :
   refine ⟨by decide, ?_, by decide⟩
   exact teardown_completes 1 true true false _ (by decide)
 
-/-- DEFECT that is left (label `c19teardown #13d`, reproduced on the real server): in that same run
-the DB write of `removeState` fails too (`context canceled`), `removeState` returns the error after
-its deferred `statesWG.Done()` but before `state.Close()`: `Close` returns, and the state's update
-queue was never closed — its consumer goroutine sleeps in `pop()` for ever. Without `hWriteOk`
-"once closed it leaves no goroutine behind" is false. -/
-theorem teardown_writefail_unclosed_state_witness :
+/-- REGRESSION for #13d (repaired by 0873710): in that same run the DB write of `removeState` fails
+too (`context canceled`); `removeState` now closes the state before returning the error: `Close`
+returns, the WaitGroup is at zero and the one state that was created has been closed. -/
+theorem teardown_writefail_now_clean :
     let s := ctxCancelRun.run [.lockDelete 0, .finishFail 0, .waitDone, .storeClosed, .dbClosed]
-    s.closer = .returned true ∧ s.wg = 0 ∧ s.unclosedStates = 1 := by decide
+    s.closer = .returned true ∧ s.wg = 0 ∧ s.logins = 1 ∧ s.statesClosed = 1 := by decide
 
 /-- one logged-in session that never looks at `Done` (and does not leave by itself); then `Close` -/
 def noObserve : TState :=
